@@ -288,6 +288,39 @@ func genC06Handlers(c *Ctx) {
 		c.Count("corpus")
 		c.Emit("c06.request", c06Isolated(c, s, somePositions(c, s, c.N(2, 6))))
 	}
+	// extreme numbers: every border of the exponent ranges (the parser's own bound, int32, int64)
+	// from both sides, as plain amounts, with unit and total costs and in assertions — a quantity
+	// that slips past the parser's range test reaches decimal.Mul / Add / Cmp in the diagnostics
+	// goroutine, where an overflow is a panic that takes the whole server down.
+	extreme := []string{"1E1000", "1E1001", "1E-1000", "1E-1001", "1.5E-1000", "1.5E1001",
+		"1E2147483646", "1E2147483647", "1E2147483648", "1E-2147483647", "1E-2147483648", "1E-2147483649",
+		"1.0E-2147483647", "1.00E-2147483646", "1.5E-2147483648", "1E4294967296", "1E-4294967296",
+		"1E9223372036854775807", "1E-9223372036854775808", "1E-9223372036854775809", "1E99999999999999999999",
+		"1E999999999", "1E-999999999", "9999999999999999999", "123456789012345678901234567890", "0E2147483647", "0E-2147483648"}
+	for i := 0; i < 2*len(extreme); i++ {
+		x := extreme[i/2]
+		y := extreme[c.R.IntN(len(extreme))]
+		shape := 1 // every extreme quantity once with a unit cost (Mul) ...
+		if i%2 == 1 {
+			shape = []int{0, 2, 3}[c.R.IntN(3)] // ... and once in another place
+			if c.R.IntN(2) == 0 {
+				y = "2"
+			}
+		}
+		var s string
+		switch shape {
+		case 0:
+			s = "2024-01-01 x\n    a:b  " + x + " USD\n    c:d\n"
+		case 1:
+			s = "2024-01-01 x\n    a:b  " + x + " AAA @ " + y + " BBB\n    c:d  1 BBB\n"
+		case 2:
+			s = "2024-01-01 x\n    a:b  " + x + " AAA @@ " + y + " BBB\n    c:d\n"
+		default:
+			s = "2024-01-01 x\n    a:b  1 USD = " + x + " USD\n    c:d  " + y + " USD\nP 2024-01-01 USD " + x + " EUR\n"
+		}
+		c.Count("extreme-number")
+		c.Emit("c06.request", c06Isolated(c, s, somePositions(c, s, 2)))
+	}
 	for i := 0; i < c.N(120, 6000); i++ {
 		s := mutateBytes(c, pick(c.R, corpus))
 		if c.R.IntN(4) == 0 {
